@@ -82,3 +82,13 @@ Theorem c08_sticky_valid_direct : forall fuel o ms ts, wf_members ms -> wf_topic
   end.
 Proof. exact sticky_valid_direct. Qed.
 Print Assumptions c08_sticky_valid_direct.
+
+(* conversely a sufficient, decidable criterion for not returning (satisfied by the witness after 8 passes): a pass that maps the
+   state to itself while reporting a modification *)
+Theorem c08_sticky_livelock_criterion : forall fx o ms ts pr k s pf,
+  sticky_prepare o ms ts = Some pr ->
+  run_perform k fx pr = (s, pf, PerfFuel) ->
+  reassign_pass fx (pr_prev pr) (pr_c2p pr) (pr_p2c pr) (pr_parts pr) s false = (s, true, PassDone) ->
+  forall fuel, (k <= fuel)%nat -> exists p, sticky_plan fuel fx o ms ts = SFuel p.
+Proof. exact sticky_livelock_criterion. Qed.
+Print Assumptions c08_sticky_livelock_criterion.
